@@ -1,0 +1,15 @@
+//go:build verif
+
+package sio
+
+// VerifHook, when set, is called at the points named in the calls to
+// vhook.  It exists only in builds with the "verif" tag (used by the
+// conformance harness to record events at linearization points and to
+// hold a goroutine at a point); normal builds compile vhook to nothing.
+var VerifHook func(point string, args ...interface{})
+
+func vhook(point string, args ...interface{}) {
+	if h := VerifHook; h != nil {
+		h(point, args...)
+	}
+}
